@@ -3,16 +3,20 @@
 (* Exhaustive exploration of the file / pickle round trips of module       *)
 (* SpectrumIO.  The state holds a spectrum with its writing options, the   *)
 (* file produced from it and what a reader returned; to_file, from_file,   *)
-(* array_to_file, array_from_file, their cross uses (pre-1.3 format) and   *)
-(* pickling are actions; the laws of C14 are invariants.                   *)
+(* array_to_file, array_from_file, their cross uses (pre-1.3 format),      *)
+(* several arrays written into / read from one open handle, and pickling   *)
+(* are actions; the laws of C14 are invariants.                            *)
 (* Precisions are 1..3 significant digits here (the rounding law is the    *)
 (* same for 16..20, which the conformance trace covers).                   *)
 (***************************************************************************)
 EXTENDS SpectrumIO, TLC
-CONSTANTS Shapes, FullMaskSize, Precisions, LabelSets, CommentSets
+CONSTANTS Shapes, FullMaskSize, Precisions, LabelSets, CommentSets, StreamShapes
 
 ShapesQuick    == {<<1>>, <<3>>, <<1, 2>>, <<2, 1>>, <<2, 2>>, <<1, 2, 1>>}
 ShapesThorough == ShapesQuick \cup {<<2>>, <<4>>, <<1, 1>>, <<2, 3>>, <<3, 1>>, <<2, 1, 2>>, <<1, 1, 3>>, <<2, 2, 2>>}
+
+\* shapes of the second / third array of a stream (the first one ranges over Shapes)
+StreamShapesThorough == ShapesQuick \cup {<<4>>, <<2, 3>>}
 
 Values == <<"0", "1/3", "7", "nan", "12345/10", "-5/2", "inf", "1/1024", "2/3", "999/1000", "-inf", "15/2", "1005/1000", "250">>
 DataChoices(sh) == {[k \in 1..Size(sh) |-> Values[((k + u) % Len(Values)) + 1]] : u \in {0, 5, 9}}
@@ -63,10 +67,40 @@ FromFile   == pc \in {"file", "afile"} /\ pc' = pc \o "-spectrum" /\ back' = Rea
 ArrayFromFile == (pc = "afile" \/ (pc = "file" /\ ~opt.fmi)) /\ pc' = pc \o "-array" /\ back' = ArrayRead(file) /\ UNCHANGED <<s, opt, file>>
 DoPickle   == pc = "start" /\ pc' = "pickled" /\ (\E x \in {"none", "1/40"} : file' = Pickle(s, x)) /\ UNCHANGED <<s, opt, back>>
 DoUnpickle == pc = "pickled" /\ pc' = "unpickled" /\ back' = Unpickle(file) /\ UNCHANGED <<s, opt, file>>
+\* ---- several arrays through one open handle: file = [h |-> the handle, written |-> what was written into it],
+\* back = [ok, got |-> what the reader returned so far].  The first array is the one of the state (nothing or the
+\* first entry masked, any comments, the smallest precision; labels, folding and reader options play no role, so one representative of them starts a stream);
+\* one or two further arrays of any shape follow, with other data and comments (the third with a masked entry).
+ExtraArray(sh, u, mk) == [sh |-> sh, d |-> [k \in 1..Size(sh) |-> Values[((k + u) % Len(Values)) + 1]],
+                          m |-> [k \in 1..Size(sh) |-> mk /\ k = Size(sh)]]
+StreamBegin  == /\ pc = "start" /\ s.ids = <<>> /\ ~s.f /\ opt.fmi /\ ~opt.mc /\ (\A k \in 2..Size(s.sh) : ~s.m[k])
+                /\ \A q \in Precisions : opt.p <= q
+                /\ pc' = "stream-w"
+                /\ file' = [h |-> HandleWrite(EmptyHandle, AsArray(s), opt.p, opt.comments),
+                            written |-> <<[a |-> AsArray(s), comments |-> opt.comments]>>]
+                /\ UNCHANGED <<s, opt, back>>
+StreamAppend == /\ pc = "stream-w" /\ Len(file.written) < 3
+                /\ LET n == Len(file.written) IN
+                   \E sh \in StreamShapes : \E mk \in {n = 2} : \E c \in (IF n = 1 THEN CommentSets ELSE {<<>>, <<C3, C1>>}) :
+                      LET a == ExtraArray(sh, 3 * n, mk) IN
+                      file' = [h |-> HandleWrite(file.h, a, opt.p, c), written |-> Append(file.written, [a |-> a, comments |-> c])]
+                /\ UNCHANGED <<pc, s, opt, back>>
+\* the file is opened again for reading: a handle on the same lines, nothing consumed
+StreamOpen   == /\ pc = "stream-w" /\ Len(file.written) >= 2 /\ pc' = "stream-r"
+                /\ back' = [ok |-> TRUE, got |-> <<>>] /\ UNCHANGED <<s, opt, file>>
+StreamRead   == /\ pc = "stream-r" /\ back.ok /\ Len(back.got) < Len(file.written)
+                /\ LET r == HandleRead(file.h) IN
+                     IF r.ok THEN /\ back' = [ok |-> TRUE, got |-> Append(back.got, [ok |-> TRUE, a |-> r.a, comments |-> r.comments])]
+                                  /\ file' = [file EXCEPT !.h = r.h]
+                     ELSE back' = [ok |-> FALSE, got |-> back.got] /\ file' = file
+                /\ UNCHANGED <<pc, s, opt>>
+
 Next == Choose \/ ToFile \/ ArrayToFile \/ FromFile \/ ArrayFromFile \/ DoPickle \/ DoUnpickle
+           \/ StreamBegin \/ StreamAppend \/ StreamOpen \/ StreamRead
 Spec == Init /\ [][Next]_vars
 
-TypeOK == /\ pc \in {"choose", "start", "file", "afile", "file-spectrum", "afile-spectrum", "file-array", "afile-array", "pickled", "unpickled"}
+TypeOK == /\ pc \in {"choose", "start", "file", "afile", "file-spectrum", "afile-spectrum", "file-array", "afile-array", "pickled", "unpickled",
+                      "stream-w", "stream-r"}
           /\ Len(s.d) = Size(s.sh) /\ Len(s.m) = Size(s.sh)
 
 StrippedComments == [j \in 1..Len(opt.comments) |-> Strip(opt.comments[j])]
@@ -98,6 +132,20 @@ L_ArrayFileAsSpectrum == pc = "afile-spectrum" =>
 \* a pre-1.3 spectrum file read by the array reader: shape, comments and all data
 L_OldFileAsArray == (pc = "file-array" /\ ~opt.fmi) =>
     /\ back.ok /\ back.a.sh = s.sh /\ back.comments = StrippedComments /\ SameValues(s.d, back.a.d, opt.p, "0")
+\* ---- several arrays in one handle: reading k arrays returns the first k written, in order; the handle is then
+\* positioned after the k-th array and what is left in it is exactly the lines of the others ----
+WrittenLines(j) == FileLines(ArrayWrite(file.written[j].a, opt.p, file.written[j].comments))
+L_Stream == pc = "stream-r" =>
+    LET n == Len(back.got)
+        RECURSIVE used(_)
+        used(j) == IF j = 0 THEN 0 ELSE used(j - 1) + LinesOf(file.written[j].comments)
+    IN  /\ back.ok
+        /\ \A j \in 1..n : ArrayRoundTripOK(file.written[j].a, opt.p, file.written[j].comments, back.got[j], "0")
+        /\ file.h.pos = used(n)
+        /\ HandleRest(file.h) = Concat([j \in 1..(Len(file.written) - n) |-> WrittenLines(n + j)])
+L_StreamWritten == pc = "stream-w" =>
+    /\ file.h.pos = 0
+    /\ file.h.lines = Concat([j \in 1..Len(file.written) |-> WrittenLines(j)])
 \* ---- pickle ----
 L_Pickle == pc = "unpickled" => (back.s = s /\ back.x = file.extrap_x)
 
